@@ -387,7 +387,7 @@ func (e *Engine) runPath(ex *Exec, h *ssa.Function) (status string, msg string) 
 			case unsupported:
 				status, msg = "unsupported", x.msg
 			default:
-				status, msg = "crash", fmt.Sprintf("%v\n%s", r, debug.Stack())
+				status, msg = "crash", fmt.Sprintf("%v at %s\n%s", r, ex.posStr(ex.curPos), debug.Stack())
 			}
 		}
 	}()
